@@ -80,6 +80,7 @@ func (s *Store) Push(b bpv7.Bundle) error {
 		if err := bi.Parts[0].storeBundle(b); err != nil {
 			return err
 		}
+		verifPoint("push.before-insert")
 
 		return s.bh.Insert(bi.Id, bi)
 	} else if bi.Fragmented {
@@ -113,6 +114,7 @@ func (s *Store) Push(b bpv7.Bundle) error {
 			if err := compPart.storeBundle(b); err != nil {
 				return err
 			}
+			verifPoint("push.before-update")
 
 			biStore.Parts = append(biStore.Parts, compPart)
 			return s.bh.Update(biStore.Id, biStore)
@@ -150,8 +152,10 @@ func (s *Store) Delete(bid bpv7.BundleID) error {
 					"error":  err,
 				}).Warn("Failed to delete BundlePart")
 			}
+			verifPoint("delete.after-part")
 		}
 
+		verifPoint("delete.before-index")
 		return s.bh.Delete(bi.Id, BundleItem{})
 	}
 
